@@ -201,7 +201,9 @@ func c18Gen(t *rapid.T) C18Case {
 	// A generated nesting of integer-valued aggregations whose grouping clauses name the same
 	// few labels in any order of by / without: the label sets of the answer must not depend on
 	// which member of a group the runtime happens to visit first.
-	if rapid.IntRange(0, 1).Draw(t, "generated-nesting") == 0 {
+	if strings.HasPrefix(c.Query, "{") && rapid.Bool().Draw(t, "keep-log-query") {
+		// log queries (limits that cut through ties of several containers) keep their share
+	} else if rapid.IntRange(0, 1).Draw(t, "generated-nesting") == 0 {
 		pool := []string{"container", "tier", "env", "msg"}
 		// Half of the time every level names one common label.
 		common := ""
